@@ -413,3 +413,145 @@ func Nontrivial(input, obs string) bool {
 	}
 	return in.At(0).Len() >= 2 && in.At(1).Len() >= 3
 }
+
+// ---- real task-level bodies (TR / CR requests) ---------------------------------------------------
+
+// realEligible: the events whose real body is one command round trip with the task manager.
+func realEligible(ev string) bool { return realBodyEvents[ev] != nil }
+
+// WithRealBodies rewrites the T / C requests of a generated case on CONFIGURE / START_ACTIVITY /
+// STOP_ACTIVITY / RESET into TR / CR (the REAL body of core/environment/transition_*.go runs, the fake task
+// manager answers its command per bodyOk): all of them (half of the cases) or each with probability 1/2.
+// Requests inside an overlapping pair are left alone; nothing is rewritten from the first teardown on (a
+// teardown attempt closes the environment's stateChangedCh: see Run). The case gets at least one task (a real
+// CONFIGURE asks nobody otherwise) and the tag real-bodies.
+func WithRealBodies(c fw.Case, r *rng.R) fw.Case {
+	in, err := sx.Parse(c.Input)
+	if err != nil {
+		return c
+	}
+	all := r.P(1, 2)
+	reqs := sx.L()
+	n, live := 0, true
+	for _, q := range in.At(1).List {
+		k := q.At(0).Str()
+		if k == "D" || k == "P" {
+			live = false
+		}
+		if live && (k == "T" || k == "C") && realEligible(q.At(1).Str()) && (all || r.P(1, 2)) {
+			q = sx.L(sx.A(k+"R"), q.At(1), q.At(2), q.At(3))
+			n++
+		}
+		reqs.Add(q)
+	}
+	if n == 0 {
+		return c
+	}
+	return fw.Case{Input: sx.L(in.At(0), reqs, sx.I(max(in.At(2).Int(), 1))).String(), Tags: append(append([]string{}, c.Tags...), "real-bodies")}
+}
+
+// GenBodyFailureCase: the class "a command round trip with the task manager FAILS inside a transition"
+// (tasks refuse CONFIGURED→RUNNING at START_ACTIVITY — half of the cases —, RUNNING→CONFIGURED at
+// STOP_ACTIVITY, the configuration, the reset), with the REAL transition body, reached by a legal path
+// (sometimes after a complete earlier run), requested through TryTransition or through the API glue (which
+// answers the failure with GO_ERROR), with 0..4 probes where the failed transition and the GO_ERROR that
+// closes it look for hooks (both signs of weight at before_<event>, so that the probes see the variables
+// before and after the run number is handed out; critical ones that fail now and then), followed by 0..3
+// further requests: GO_ERROR, the same request again with tasks that comply, RECOVER, a STOP, a teardown.
+func GenBodyFailureCase(r *rng.R) fw.Case {
+	target := rng.Pick(r, []string{"START_ACTIVITY", "START_ACTIVITY", "START_ACTIVITY", "STOP_ACTIVITY", "CONFIGURE", "RESET"})
+	src := map[string]string{"START_ACTIVITY": "CONFIGURED", "STOP_ACTIVITY": "RUNNING", "CONFIGURE": "DEPLOYED", "RESET": "CONFIGURED"}[target]
+	path := map[string][]string{
+		"DEPLOYED":   {"DEPLOY"},
+		"CONFIGURED": {"DEPLOY", "CONFIGURE"},
+		"RUNNING":    {"DEPLOY", "CONFIGURE", "START_ACTIVITY"},
+	}[src]
+	if (src == "CONFIGURED" || src == "RUNNING") && r.P(1, 3) {
+		// an earlier, complete run: its stamps and number must not show in what follows
+		path = append([]string{"DEPLOY", "CONFIGURE", "START_ACTIVITY", "STOP_ACTIVITY"}, path[2:]...)
+	}
+	kindOf := func() string { return rng.Pick(r, []string{"TR", "TR", "CR"}) }
+	reqs := sx.L()
+	for _, ev := range path {
+		k := "T"
+		if realEligible(ev) && r.P(2, 3) {
+			k = "TR"
+		}
+		reqs.Add(sx.L(sx.A(k), sx.A(ev), sx.B(true), sx.B(false)))
+	}
+	fk := kindOf()
+	reqs.Add(sx.L(sx.A(fk), sx.A(target), sx.B(false), sx.B(false)))
+	st := src
+	if fk == "CR" {
+		st = "ERROR"
+	}
+	nFollow := r.N(4)
+	for i := 0; i < nFollow; i++ {
+		legal := []string{}
+		for e := range next[st] {
+			legal = append(legal, e)
+		}
+		sortStrings(legal)
+		if r.P(1, 8) || len(legal) == 0 {
+			reqs.Add(sx.L(sx.A("D"), sx.B(r.P(5, 6)), sx.B(r.P(9, 10)), sx.B(r.P(9, 10))))
+			break
+		}
+		ev := rng.Pick(r, legal)
+		switch {
+		case st == src && i == 0 && r.P(1, 2):
+			ev = "GO_ERROR" // what closes the failed transition when the caller is not the API glue
+		case st == src && r.P(1, 2):
+			ev = target // once more, the tasks comply this time (mostly)
+		case ev == "EXIT" && r.P(2, 3):
+			ev = rng.Pick(r, legal)
+		}
+		k := "T"
+		if realEligible(ev) {
+			k = kindOf()
+		} else if r.P(1, 4) {
+			k = "C"
+		}
+		ok := !r.P(1, 6)
+		reqs.Add(sx.L(sx.A(k), sx.A(ev), sx.B(ok), sx.B(false)))
+		if d, legalEv := next[st][ev]; legalEv && ok {
+			st = d
+		} else if k[0] == 'C' {
+			st = "ERROR"
+		}
+	}
+	// probes
+	spots := []string{"before_" + target, "before_" + target, "leave_" + src, "after_" + target, "before_GO_ERROR", "before_GO_ERROR",
+		"enter_ERROR", "after_GO_ERROR", "after_GO_ERROR", "before_START_ACTIVITY", "after_STOP_ACTIVITY", "enter_" + src}
+	weights := []int{-50, -1, 0, 0, 5, 100}
+	hooks := sx.L()
+	nCritFail := 0
+	for i, n := 0, r.N(5); i < n; i++ {
+		m := rng.Pick(r, spots)
+		w := rng.Pick(r, weights)
+		crit := r.P(1, 3)
+		outs := sx.L()
+		switch r.N(6) {
+		case 0: // always fails
+			for j := 0; j < 6; j++ {
+				outs.Add(sx.B(true))
+			}
+			if crit {
+				nCritFail++
+			}
+		case 1: // fails now and then
+			for j := 0; j < 6; j++ {
+				outs.Add(sx.B(r.P(1, 3)))
+			}
+		}
+		kind := "call"
+		if r.P(1, 6) {
+			kind = "task"
+		}
+		hooks.Add(sx.L(sx.I(i), sx.A(kind), sx.B(crit), sx.A(m), sx.I(w), sx.A(m), sx.I(w), outs))
+	}
+	tags := []string{"body-failure-class", "body-failure-" + target, "body-failure-via-" + fk, "real-bodies"}
+	if nCritFail > 0 {
+		tags = append(tags, "critical-failures")
+	}
+	return fw.Case{Input: sx.L(hooks, reqs, sx.I(r.Range(1, 2))).String(), Tags: tags}
+}
